@@ -101,6 +101,7 @@ type Out struct {
 	Load2  map[string]Res    `json:"load2,omitempty"`
 	EnvOn  map[string]Res    `json:"envon,omitempty"`
 	EnvOff map[string]Res    `json:"envoff,omitempty"`
+	EnvRef map[string]Res    `json:"envref,omitempty"` // LoadFrom*Bytes of os.ExpandEnv(text): what UseEnv must equal
 	ByExt  map[string]Res    `json:"byext,omitempty"`  // conf.Load on c<ext>, loader chosen by the extension
 	Must   map[string]Res    `json:"must,omitempty"`   // conf.MustLoad where Load succeeded
 	Fill   *Res              `json:"fill,omitempty"`   // conf.FillDefault on a fresh value
@@ -608,6 +609,11 @@ func runCase(c Case, dir string) (out Out) {
 				out.Fail = "files: " + err.Error()
 				return
 			}
+			exp := map[string]string{}
+			for k, v := range texts {
+				exp[k] = os.ExpandEnv(v)
+			}
+			out.EnvRef = loadBytes(rt, exp)
 			if out.EnvOff, err = loadFiles(rt, dir, texts); err != nil {
 				out.Fail = "files: " + err.Error()
 				return
